@@ -65,6 +65,104 @@ func c08Graph() *gen.Graph {
 	return g
 }
 
+// c08Inputs: what a request shows of earlier answers through its declared headers and properties. A task T in
+// a loop stores the object hv = {u: value} (and the loop flag); the task N behind it declares header h1 {ref $hv.u,
+// literal "lit"}, header h2 {literal only}, header h3 {ref only} and property p1 {ref $hv.u}. Per the engine's documented rule a header
+// shows the text its reference resolves to and otherwise its literal value; the declarations belong to the
+// model, not to the run: the k-th request of N depends on the k-th answer of T alone, and a second instance of
+// the same definitions value starts from the literals.
+func c08Inputs(c *c08Case, env *fw.Env, v *fw.V) {
+	g := gen.NewGraph("c08i")
+	s := g.Add(gen.Start, "start", "")
+	xm := g.Add(gen.Xor, "xm", "")
+	t := g.Add(gen.Task, "T", "")
+	t.Writes = []string{"hv", "again"}
+	n := g.Add(gen.Task, "N", "")
+	n.Headers = []gen.PropItem{{Name: "h1", Ref: "$hv.u", Value: "lit"}, {Name: "h2", Value: "const"}, {Name: "h3", Ref: "$hv.u"}}
+	n.Props = []gen.PropItem{{Name: "p1", Ref: "$hv.u"}}
+	xs := g.Add(gen.Xor, "xs", "")
+	e := g.Add(gen.End, "end", "")
+	g.Connect(s, xm, nil)
+	g.Connect(xm, t, nil)
+	g.Connect(t, n, nil)
+	g.Connect(n, xs, nil)
+	g.Connect(xs, xm, &gen.Cond{Kind: "var", Var: "again", Op: ">", Val: 0})
+	d := g.Connect(xs, e, nil)
+	xs.Default = d.ID
+	defs, _, err := step.Parse(g)
+	if err != nil {
+		v.Inconclusive("parse", "%v", err)
+		return
+	}
+	perturb.Off()
+	// the values T stores, round by round (c.Seq indexes this catalogue): texts, and things that are no text
+	cat := []any{"text-a", 42, "text-b", true, "", 2.5, "text-c"}
+	runInst := func(label string, seq []int) bool {
+		in, err := drive.New(env.Label, defs, drive.Opts{Vars: map[string]any{"again": 0}})
+		if err != nil {
+			v.Violate("new-process-error", "inputs", "%v", err)
+			return false
+		}
+		defer in.Cancel()
+		if err := in.Start(); err != nil {
+			v.Violate("start-error", "inputs", "%v", err)
+			return false
+		}
+		quiet := func() bool {
+			q := in.Quiesce(step.Watchdog)
+			if !q.Quiescent {
+				v.Inconclusive("watchdog", "no quiescent point: %v", quiesce.Summary(q.Gs))
+				return false
+			}
+			return true
+		}
+		for round, ci := range seq {
+			if !quiet() {
+				return false
+			}
+			p := in.Pending()
+			if len(p) != 1 || p[0].Act != "T" {
+				v.Violate("continuation", "inputs", "%s round %d: pending %v, expected [T]", label, round, in.PendingActs())
+				return false
+			}
+			again := 1
+			if round == len(seq)-1 {
+				again = 0
+			}
+			val := cat[ci%len(cat)]
+			in.Answer(p[0], bpmn.DoWithResults(map[string]any{"hv": map[string]any{"u": val}, "again": again}))
+			if !quiet() {
+				return false
+			}
+			p = in.Pending()
+			if len(p) != 1 || p[0].Act != "N" {
+				v.Violate("continuation", "inputs", "%s round %d: pending %v, expected [N]", label, round, in.PendingActs())
+				return false
+			}
+			text, isText := val.(string)
+			want := map[string]string{"h1": "lit", "h2": "const", "h3": ""}
+			if isText {
+				want["h1"], want["h3"] = text, text
+			}
+			got := p[0].Trace.GetHeaders()
+			for _, h := range []string{"h1", "h2", "h3"} {
+				if got[h] != want[h] {
+					v.Violate("header-value", "inputs-"+h, "%s round %d: T stored hv.u=%#v; the request of N shows header %s=%q, expected %q (a header shows the text its reference resolves to, otherwise its literal value); values stored in earlier rounds: %v", label, round, val, h, got[h], want[h], seq[:round])
+					return false
+				}
+			}
+			v.Add("header-reads", 3)
+			in.Answer(p[0], bpmn.DoWithResults(nil))
+		}
+		return true
+	}
+	if !runInst("first instance", c.Seq) {
+		return
+	}
+	// a second instance of the same definitions value, with hv never a text: literals only
+	runInst("second instance of the same definitions", []int{1, 3})
+}
+
 func c08Cases(tier string, seed uint64) []fw.Case {
 	var cs []fw.Case
 	reps := 30
@@ -138,6 +236,14 @@ func c08Cases(tier string, seed uint64) []fw.Case {
 			c := c08Case{Kind: "after-cancel", NDo: ndo, Conc: conc, Reps: 1}
 			c.Name = fmt.Sprintf("after-cancel/n%d-conc%v", ndo, conc)
 			cs = append(cs, fw.MkCase("after-cancel", &c))
+		}
+	}
+	// declared headers / properties of a task requested again and again in a loop
+	for a := 0; a < 7; a++ {
+		for b := 0; b < 7; b++ {
+			c := c08Case{Kind: "inputs", Seq: []int{a, b, (a + b + 1) % 7}, Reps: 1}
+			c.Name = fmt.Sprintf("inputs/%d-%d", a, b)
+			cs = append(cs, fw.MkCase("inputs", &c))
 		}
 	}
 	// what a successful answer stores, over the value kinds of the catalogue
@@ -697,6 +803,8 @@ func init() {
 				fw.Rep(env, i, func(env *fw.Env) {
 					if cc.Kind == "after-cancel" {
 						c08AfterCancel(&cc, env, v)
+					} else if cc.Kind == "inputs" {
+						c08Inputs(&cc, env, v)
 					} else if cc.Kind == "values" {
 						tmp := fw.NewV(fw.Case{})
 						c16Engine(&c16Case{Kind: "engine", Route: cc.Route, From: cc.From, To: cc.To}, env, tmp)
